@@ -33,9 +33,13 @@ theorem Shape.rt_ra {id : Nat} {s s' : RState} (h : Shape RT s s') : Shape (RA i
   h.mono fun _ _ _ => RT.toRA
 theorem Shape.ra_rw {id : Nat} {s s' : RState} (h : Shape (RA id) s s') : Shape (RW id) s s' :=
   h.mono fun _ _ _ => RA.toRW
+theorem Shape.ro_ru {id : Nat} {s s' : RState} (h : Shape (RO id) s s') : Shape (RU id) s s' :=
+  h.mono fun _ _ _ => RO.toRU
+theorem Shape.ru_ra {id : Nat} {s s' : RState} (h : Shape (RU id) s s') : Shape (RA id) s s' :=
+  h.mono fun _ _ _ => RU.toRA
 theorem RA.self {id : Nat} {c c' : Conn} (h1 : c.sameId c')
     (h2 : ∃ n, c'.out.inflight = c.out.inflight.drop n ∧ c'.out.lastPkid = c.out.lastPkid) : RA id id c c' :=
-  ⟨h1, fun h => absurd rfl h, h2⟩
+  ⟨h1, fun h => absurd rfl h, h2.elim fun n h => ⟨n, Forgets.of_eq h.1, h.2⟩⟩
 
 theorem registerAck_lastPkid (o : Outgoing) (pkid : Nat) : (o.registerAck pkid).1.lastPkid = o.lastPkid := by
   unfold Outgoing.registerAck; split
@@ -100,7 +104,7 @@ theorem handlePacket_shape {s s' : RState} {id : Nat} {cid : String} {pkt : Pack
         · simp at h
         · rename_i s2 h2
           simp only [Except.ok.injEq, Prod.mk.injEq] at h; obtain ⟨rfl, _⟩ := h
-          exact ((unsubscribeFilters_shape filters h1).trans (commitAck_shape h2)).ro_ra
+          exact ((unsubscribeFilters_shape filters h1).trans (commitAck_shape h2).ro_ru).ru_ra
   | puback pkid =>
     simp only [handlePacket] at h
     split at h
@@ -131,9 +135,7 @@ theorem handlePacket_shape {s s' : RState} {id : Nat} {cid : String} {pkt : Pack
           refine Shape.trans ?_ (reschedule_shape h2).rt_ra
           exact Shape.of_set hc rfl rfl rfl (RA.self ⟨rfl, rfl, rfl, rfl⟩ (by first | exact ⟨0, by simp, rfl⟩ | exact registerAck_dropN _ _ | exact ⟨0, by simp [registerPubcomp_out], (registerPubcomp_out _ _).2⟩))
   | pubrel pkid hasProps =>
-    cases hasProps with
-    | true => simp only [handlePacket, Except.ok.injEq, Prod.mk.injEq] at h; obtain ⟨rfl, _⟩ := h; exact Shape.refl _
-    | false =>
+    · show Shape (RA id) s s'
       simp only [handlePacket] at h
       split at h
       · simp at h
@@ -281,7 +283,8 @@ theorem consumeLoop_shape {id : Nat} : ∀ (fuel : Nat) {s s' : RState} {request
       split at h
       · simp at h
       · rename_i s1 req1 st h1
-        have a := forwardDeviceData_shape h1
+        have a : Shape (RW id) s (noteTurn s s1 req1) :=
+          (forwardDeviceData_shape h1).trans (noteTurn_core s s1 req1).shape
         split at h
         · split at h
           · simp at h
@@ -297,6 +300,172 @@ theorem consumeLoop_shape {id : Nat} : ∀ (fuel : Nat) {s s' : RState} {request
             exact (a.trans (park_core h2).shape).trans (consumeLoop_shape fuel h)
         · exact a.trans (consumeLoop_shape fuel h)
         · exact a.trans (consumeLoop_shape fuel h)
+
+/-! ### the local `turn_moved` during one `consume`: sweeps only add to it (`noteTurn`) -/
+
+theorem readRetained_turnMoved {s s' : RState} {f : String} {ps : List Pub}
+    (h : readRetained s f = .ok (s', ps)) : s'.turnMoved = s.turnMoved := by
+  unfold readRetained at h
+  simp only [] at h
+  split at h
+  · split at h
+    · simp only [Except.ok.injEq, Prod.mk.injEq] at h; obtain ⟨rfl, _⟩ := h; rfl
+    · simp at h
+  · simp at h
+
+theorem updateNextClient_turnMoved {s s' : RState} {g g' : SharedGroup}
+    (h : updateNextClient s g = .ok (s', g')) : s'.turnMoved = s.turnMoved := by
+  unfold updateNextClient at h
+  split at h
+  · simp only [Except.ok.injEq, Prod.mk.injEq] at h; obtain ⟨rfl, _⟩ := h; rfl
+  · split at h
+    · simp at h
+    · simp only [Except.ok.injEq, Prod.mk.injEq] at h; obtain ⟨rfl, _⟩ := h; rfl
+  · split at h
+    · simp at h
+    · split at h
+      · split at h
+        · simp only [Except.ok.injEq, Prod.mk.injEq] at h; obtain ⟨rfl, _⟩ := h; rfl
+        · simp at h
+      · simp at h
+
+theorem fdRetained_turnMoved {s s' : RState} {req : DataRequest} {slots slots' : Nat} {ps : List (Pub × Option Cursor)}
+    (h : fdRetained s req slots = .ok (s', ps, slots')) : s'.turnMoved = s.turnMoved := by
+  unfold fdRetained at h
+  split at h
+  · split at h
+    · simp at h
+    · rename_i s1 ps1 h1
+      simp only [Except.ok.injEq, Prod.mk.injEq] at h; obtain ⟨rfl, _⟩ := h
+      exact readRetained_turnMoved h1
+  · simp only [Except.ok.injEq, Prod.mk.injEq] at h; obtain ⟨rfl, _⟩ := h; rfl
+
+theorem fdGroupUpd_turnMoved {s s' : RState} {req : DataRequest} {grp : Option SharedGroup}
+    (h : fdGroupUpd s req grp = .ok s') : s'.turnMoved = s.turnMoved := by
+  unfold fdGroupUpd at h
+  split at h
+  · split at h
+    · simp only [Except.ok.injEq] at h; subst h; rfl
+    · split at h
+      · simp at h
+      · rename_i s1 g1 h1
+        simp only [Except.ok.injEq] at h; subst h
+        exact (updateNextClient_turnMoved h1 : s1.turnMoved = _)
+  · simp only [Except.ok.injEq] at h; subst h; rfl
+
+theorem fdPush_turnMoved {s s' : RState} {id : Nat} {c : Conn} {req req' : DataRequest} {grp : Option SharedGroup}
+    {pubs : List (Pub × Option Cursor)} {cu : Bool} {st : ConsumeStatus}
+    (h : fdPush s id c req grp pubs cu = .ok (s', req', st)) : s'.turnMoved = s.turnMoved := by
+  unfold fdPush at h
+  simp only [] at h
+  split at h
+  · simp at h
+  · rename_i s1 h1
+    have b := fdGroupUpd_turnMoved h1
+    split at h
+    all_goals
+      simp only [Except.ok.injEq, Prod.mk.injEq] at h; obtain ⟨rfl, _⟩ := h
+      exact b
+
+/-- a sweep itself does not touch `turn_moved` (the caller notes the moved turn: `noteTurn`) -/
+theorem forwardDeviceData_turnMoved {s s' : RState} {id : Nat} {req req' : DataRequest} {st : ConsumeStatus}
+    (h : forwardDeviceData s id req = .ok (s', req', st)) : s'.turnMoved = s.turnMoved := by
+  rw [forwardDeviceData_eq] at h
+  split at h
+  · simp at h
+  · rename_i c hc
+    simp only [] at h
+    split at h
+    · simp only [Except.ok.injEq, Prod.mk.injEq] at h; obtain ⟨rfl, _⟩ := h; rfl
+    · split at h
+      · simp at h
+      · rename_i s1 rp slots h1
+        have a := fdRetained_turnMoved h1
+        split at h
+        · simp at h
+        · split at h
+          · simp only [Except.ok.injEq, Prod.mk.injEq] at h; obtain ⟨rfl, _⟩ := h; exact a
+          · split at h
+            · simp only [Except.ok.injEq, Prod.mk.injEq] at h; obtain ⟨rfl, _⟩ := h; exact a
+            · exact (fdPush_turnMoved h).trans a
+
+theorem pause_turnMoved {s s' : RState} {id : Nat} {r : PauseReason} (h : pause s id r = .ok s') :
+    s'.turnMoved = s.turnMoved := by
+  unfold pause at h
+  split at h
+  · simp at h
+  · split at h
+    · simp at h
+    · simp only [Except.ok.injEq] at h; subst h; rfl
+
+theorem trackv_turnMoved {s s' : RState} {id : Nat} {rs : List DataRequest} (h : trackv s id rs = .ok s') :
+    s'.turnMoved = s.turnMoved := by
+  unfold trackv at h
+  split at h
+  · simp at h
+  · simp only [Except.ok.injEq] at h; subst h; rfl
+
+theorem park_turnMoved {s s' : RState} {id : Nat} {r : DataRequest} (h : park s id r = .ok s') :
+    s'.turnMoved = s.turnMoved := by
+  unfold park at h
+  split at h
+  · simp at h
+  · simp only [Except.ok.injEq] at h; subst h; rfl
+
+/-- `noteTurn` keeps what was noted and adds the request's log exactly when its group's turn passed
+    to another member during the sweep -/
+theorem noteTurn_turnMoved (s0 s1 : RState) (req : DataRequest) :
+    (noteTurn s0 s1 req).turnMoved =
+      s1.turnMoved ++
+        (match req.group.bind (fun g => alookup g s0.shared), req.group.bind (fun g => alookup g s1.shared) with
+         | some g0, some g1 => if g1.current != g0.current then [req.filterIdx] else []
+         | _, _ => []) := by
+  unfold noteTurn
+  generalize (req.group.bind fun g => alookup g s0.shared) = a
+  generalize (req.group.bind fun g => alookup g s1.shared) = b
+  cases a <;> cases b <;> simp only [List.append_nil]
+  split <;> simp
+
+/-- whatever one iteration has noted stays noted until the end of the request loop -/
+theorem consumeLoop_turnMoved_sub {id : Nat} : ∀ (fuel : Nat) {s s' : RState} {requests skipped : List DataRequest},
+    consumeLoop s id fuel requests skipped = .ok s' → ∀ i ∈ s.turnMoved, i ∈ s'.turnMoved
+  | 0, s, s', requests, skipped, h, i, hi => by
+    simp only [consumeLoop] at h
+    rw [trackv_turnMoved h]; exact hi
+  | fuel + 1, s, s', requests, skipped, h, i, hi => by
+    cases requests with
+    | nil =>
+      simp only [consumeLoop] at h
+      split at h
+      · simp at h
+      · rename_i s1 h1
+        rw [trackv_turnMoved h]
+        split at h1
+        · rw [pause_turnMoved h1]; exact hi
+        · simp only [Except.ok.injEq] at h1; subst h1; exact hi
+    | cons req rest =>
+      simp only [consumeLoop] at h
+      split at h
+      · simp at h
+      · rename_i s1 req1 st h1
+        have a : i ∈ (noteTurn s s1 req1).turnMoved := by
+          rw [noteTurn_turnMoved, forwardDeviceData_turnMoved h1]
+          exact List.mem_append_left _ hi
+        split at h
+        · split at h
+          · simp at h
+          · rename_i s2 h2
+            rw [trackv_turnMoved h, pause_turnMoved h2]; exact a
+        · split at h
+          · simp at h
+          · rename_i s2 h2
+            rw [trackv_turnMoved h, pause_turnMoved h2]; exact a
+        · split at h
+          · simp at h
+          · rename_i s2 h2
+            exact consumeLoop_turnMoved_sub fuel h i (by rw [park_turnMoved h2]; exact a)
+        · exact consumeLoop_turnMoved_sub fuel h i a
+        · exact consumeLoop_turnMoved_sub fuel h i a
 
 /-- `consume` serves the first live connection of the ready queue (if any) -/
 def polled (s : RState) : Option Nat := (s.readyqueue.dropWhile (fun id => (s.conns.get? id).isNone)).head?
@@ -319,7 +488,11 @@ theorem consume_shape {s s' : RState} {b : Bool} (h : consume s = .ok (s', b)) :
       split at h
       · simp at h
       · rename_i s1 h1
+        split at h
+        · simp at h
+        rename_i s2 h2
         simp only [Except.ok.injEq, Prod.mk.injEq] at h; obtain ⟨rfl, _⟩ := h
+        refine Shape.trans ?_ (wakeTurnMoved_shape h2).rt_rw
         have hc' : getConn s id = some c := hc
         have a : Shape (RW id) s ({ setConn { s with readyqueue := rq } id { c with tracker := { c.tracker with requests := [] } }
             with readyqueue := (setConn { s with readyqueue := rq } id { c with tracker := { c.tracker with requests := [] } }).readyqueue ++ [id] } : RState) :=
